@@ -23,6 +23,7 @@ type Tables struct {
 	Precede       []PrecedeSpec       `json:"precede"`
 	ConsumeReset  []ConsumeResetSpec  `json:"consume_reset"`
 	Nesting       []NestingSpec       `json:"nesting"`
+	CoAccess      []CoAccessSpec      `json:"co_access"`
 	Termination   TermSpec            `json:"termination"`
 	FuncProps     map[string][]string `json:"func_props"` // function key -> properties that depend on its termination
 	// E5
